@@ -345,7 +345,7 @@ func init() {
 		return out, nil
 	})
 
-	// concurrent {schema, docs, insts, validateDefaults, burst}: k goroutines x m rounds over one Resolved / one Schema tree (C13)
+	// concurrent {schema, docs, insts, validateDefaults, burst, freshRounds}: k goroutines x m rounds over one Resolved / one Schema tree (C13)
 	// Optional arg infer {type, opts, warm} (as for the op `infer`): the goroutines additionally call ForType on `type` and on every
 	// `warm` type with ONE *ForOptions value shared by all of them (one TypeSchemas map whose entry schemas were decoded from JSON);
 	// every result must marshal like the result of the same call made alone with an options object of its own, and the shared
@@ -361,6 +361,11 @@ func init() {
 			// over all the instances on the shared Resolved (each verdict compared with the sequential one), all goroutines
 			// released together: the first calls on a fresh Resolved then overlap for longer than one pass does.
 			Burst int `json:"burst"`
+			// FreshRounds (default 0 = off): before the ordinary phase, that many times: a FRESH Resolved is made from the shared
+			// root with the operation's options (validateDefaults …) and k goroutines, released together, at once make
+			// max(burst, 1) passes of Validate over all the instances on it, each verdict compared with the sequential one —
+			// the first concurrent calls on a Resolved that Resolve has just returned, many times per operation.
+			FreshRounds int `json:"freshRounds"`
 		}
 		if err := json.Unmarshal(args, &inf); err != nil {
 			return nil, err
@@ -468,6 +473,37 @@ func init() {
 		var mu sync.Mutex
 		mismatches := 0
 		note := func() { mu.Lock(); mismatches++; mu.Unlock() }
+		for fr := 0; fr < inf.FreshRounds; fr++ {
+			frs, err := u.root.Resolve(u.opts)
+			if err != nil {
+				note()
+				break
+			}
+			passes := max(inf.Burst, 1)
+			var fwg sync.WaitGroup
+			fstart := make(chan struct{})
+			for g := 0; g < k; g++ {
+				fwg.Add(1)
+				go func() {
+					defer fwg.Done()
+					defer func() {
+						if r := recover(); r != nil {
+							note()
+						}
+					}()
+					<-fstart
+					for b := 0; b < passes; b++ {
+						for i, v := range insts {
+							if safeValidate(frs, v) != seq[i] {
+								note()
+							}
+						}
+					}
+				}()
+			}
+			close(fstart)
+			fwg.Wait()
+		}
 		start := make(chan struct{})
 		for g := 0; g < k; g++ {
 			wg.Add(1)
